@@ -39,9 +39,11 @@ def run(ctx):
     else:
         plan = {"mc": [(n, c, PROPS, dict(ids=3, family=FAM, horizon=20, maxep=1, maxins=4, ticks=(10,), delays=(0,), ttls=(10,), timeout=3000))
                        for n, c in (("adm_d1", d1), ("adm_d2", d2), ("adm_r2", r2), ("adm_dd", dd))],
-                "gen": [("adm_drop", d2, dict(ids=3, family=FAM, horizon=10, maxep=1, maxins=4, pick="insertion", ticks=(10,), delays=(0,), ttls=(10,)), 1),
+                # measured: 190k / 55k / 578k edge schedules; a seeded sample of 60k of each is executed on both backends
+                "gen": [("adm_drop", d2, dict(ids=3, family=("admission", "lease"), horizon=10, maxep=1, maxins=4, pick="insertion", ticks=(10,), delays=(0,), ttls=(10,)), 1),
                         ("adm_rej", r2, dict(ids=3, family=("admission", "lease"), horizon=10, maxep=1, maxins=4, pick="insertion", ticks=(10,), delays=(0,), ttls=(10,)), 1),
-                        ("adm_dd", dd, dict(ids=3, family=("admission", "lease", "read"), horizon=20, maxep=1, maxins=4, pick="insertion", ticks=(10,), delays=(0,), ttls=(10,)), 1)],
+                        ("adm_dd", dd, dict(ids=3, family=("admission", "lease", "read"), horizon=20, maxep=1, maxins=3, pick="insertion", ticks=(10,), delays=(0,), ttls=(10,)), 1)],
+                "gen_cap": 60000,
                 "drv": [("adm", "admission", 4000, 90, {})]}
     l1_part(ctx)
     q.run_plan(ctx, plan, RULE, assumptions=["token bucket: one token of slack on refusals for the implementation's floating-point refill (the statement is an upper bound)",
@@ -54,11 +56,16 @@ RE_ARR = re.compile(r'^<<"ARRIVALS", "(.*)">>$')
 
 def l1_part(ctx):
     vf.build_hkv()
-    r = vf.mc_run(ctx, "ratebound", "Admission", {"Steps": {0, 100, 199, 200, 201, 1000}}, {"Rps": 5, "Burst": 3, "MaxT": 1200 if ctx.quick else 1600},   # measured: 1400 -> 9.4M states, 1600 -> 37M (131 s), 1800 -> > 100M
-                  invariants=["RateBound"], timeout=900, workers=4 if ctx.quick else vf.NCPU)
+    # measured (8 workers): MaxT 800 -> 5.0M states / 23 s, 1000 -> 55M / 240 s, 1200 -> > 200M
+    steps = {"Steps": {0, 100, 199, 200, 201, 1000}, "Stale": {0, 150} if ctx.quick else {0, 1, 150}}
+    r = vf.mc_run(ctx, "ratebound", "Admission", steps, {"Rps": 5, "Burst": 3, "MaxT": 800 if ctx.quick else 1000, "Rewind": False},
+                  invariants=["RateBound"], timeout=1200, workers=8 if ctx.quick else vf.NCPU)
     vf.mc_expect_ok(ctx, r, "Admission RateBound")
+    bad = vf.mc_run(ctx, "ratebound_rewind", "Admission", steps, {"Rps": 5, "Burst": 3, "MaxT": 800, "Rewind": True}, invariants=["RateBound"], timeout=600, workers=4)
+    if bad["ok"] and not bad["violated"]:
+        raise vf.Infra("Admission.tla accepts the variant that rewinds the refill reference on a stale timestamp (vacuous model)")
     depth, num = (8, 150) if ctx.quick else (14, 3000)
-    g = vf.mc_run(ctx, "admgen", "AdmissionGen", {"Gaps": {0, 1, 199, 200, 201, 499, 500, 1000, 3000}, "Targets": {"own", "g1", "g2", "none"}}, {"Depth": depth},
+    g = vf.mc_run(ctx, "admgen", "AdmissionGen", {"Gaps": {0, 1, 199, 200, 201, 499, 500, 1000, 3000, -1, -150, -400}, "Targets": {"own", "g1", "g2", "none"}}, {"Depth": depth},
                   timeout=600, workers=1, extra=["-simulate", "num=%d" % num, "-depth", str(depth + 1), "-seed", str(ctx.seed)])
     if g["error"]:
         raise vf.Infra("AdmissionGen failed: %s" % g["error"])
